@@ -654,7 +654,14 @@ class XsdComplexType(XsdType, ValidationMixin[Union[ElementType, str, bytes], An
         if self is other or self.ref is other:
             return True
         elif other.name == nm.XSD_ANY_TYPE:
-            return derivation != 'extension'
+            if derivation != 'extension':
+                return True
+
+            # Derived by extension from xs:anyType if a step of the chain is an extension
+            base_type = self.base_type
+            if base_type is None or base_type is self or base_type.name == nm.XSD_ANY_TYPE:
+                return False
+            return base_type.is_derived(other, derivation)
         elif self.base_type is other:
             return derivation is None
         elif isinstance(other, XsdUnion):
